@@ -17,6 +17,7 @@ vmod!(types, "types.rs");
 vmod!(rbench, "rbench.rs");
 vmod!(wbench, "wbench.rs");
 vmod!(codec, "codec.rs");
+vmod!(disc, "disc.rs");
 vmod!(plcdr, "plcdr.rs");
 
 // drivers that need the DDS Security plugins (only in the `security` build: vcheck-sec)
